@@ -214,6 +214,7 @@ func run(c *simrun.Ctx) *simrun.Violation {
 			m, err = h.BuildStruct(av, mt)
 		case "struct-empty-notnil":
 			h.EmptyNotNil = true
+			h.EmptyUnknown = t.Chance("empty-unknown", 1, 2)
 			h.EmptyCap = []int{0, 1, 4}[t.Draw("empty-cap", 3)]
 			h.PermuteInserts = true
 			m, err = h.BuildStruct(av, mt)
